@@ -734,3 +734,533 @@ Proof.
     apply in_map_iff in Hin. destruct Hin as (t & <- & Ht). rewrite (Hu t Ht) in Hn. discriminate. }
   apply c16_members_ok; assumption.
 Qed.
+
+
+(* ===================================================================== *)
+(* C16: the facts C16_outside consumes, derived from validate_batch       *)
+(* ===================================================================== *)
+
+(* what validation (Validate, LockInputs, WriteTransaction) may change: ghost
+   bindings and stored bodies only grow; totals, infos, finalizations and the
+   UNIQUE records are untouched *)
+Definition vmono (s1 s2 : lstate) : Prop :=
+  (forall k v, alookup k (st_ghosts s1) = Some v -> alookup k (st_ghosts s2) = Some v) /\
+  (forall h t, alookup h (st_bodies s1) = Some t -> alookup h (st_bodies s2) = Some t) /\
+  st_finals s2 = st_finals s1 /\ st_infos s2 = st_infos s1 /\
+  st_totals s2 = st_totals s1 /\ st_uniq s2 = st_uniq s1.
+
+Lemma vmono_refl : forall s, vmono s s.
+Proof. intros s. repeat split; auto. Qed.
+
+Lemma vmono_trans : forall a b c, vmono a b -> vmono b c -> vmono a c.
+Proof.
+  intros a b c (G1 & B1 & F1 & I1 & T1 & U1) (G2 & B2 & F2 & I2 & T2 & U2).
+  repeat split; try congruence; auto.
+Qed.
+
+Lemma amem_of_lookup : forall {V} k (l : list (N * V)) v, alookup k l = Some v -> amem k l = true.
+Proof. intros V k l v H. unfold amem. rewrite H. reflexivity. Qed.
+Lemma amem_lookup : forall {V} k (l : list (N * V)), amem k l = true -> exists v, alookup k l = Some v.
+Proof. intros V k l H. unfold amem in H. destruct (alookup k l); [eauto|discriminate]. Qed.
+
+Lemma ready_vmono : forall s1 s2 t, ready s1 t -> vmono s1 s2 -> ready s2 t.
+Proof.
+  intros s1 s2 t R (G & B & F & I & T & U). constructor.
+  - intros k Hk. apply G. apply (rd_ghost _ _ R k Hk).
+  - apply (rd_outs _ _ R).
+  - apply (rd_count _ _ R).
+  - intros Hc. destruct (rd_claim _ _ R Hc) as (r & rs & X & Y & Z). exists r, rs.
+    split; [exact X|]. rewrite F. split; [|exact Z].
+    destruct (amem_lookup _ _ Y) as (v & Hv). apply (amem_of_lookup _ _ v). apply B. exact Hv.
+  - rewrite I. apply (rd_info _ _ R).
+Qed.
+
+(* ---- LockGhostKeys --------------------------------------------------------- *)
+
+Definition gstep (h : N) (g : list (N * N)) (k : N) : list (N * N) :=
+  match alookup k g with None => aset k h g | Some _ => g end.
+
+Lemma gstep_keeps : forall h g k k' v, alookup k' g = Some v -> alookup k' (gstep h g k) = Some v.
+Proof.
+  intros h g k k' v H. unfold gstep. destruct (alookup k g) eqn:E; [exact H|].
+  unfold aset. cbn [alookup]. destruct (k' =? k)%N eqn:Ek; [|exact H].
+  apply N.eqb_eq in Ek. subst k'. rewrite H in E. discriminate.
+Qed.
+
+Lemma gfold_keeps : forall h keys g k' v,
+  alookup k' g = Some v -> alookup k' (fold_left (gstep h) keys g) = Some v.
+Proof.
+  intros h keys. induction keys as [|k r IH]; intros g k' v H; [exact H|].
+  cbn [fold_left]. apply IH. apply gstep_keeps. exact H.
+Qed.
+
+Lemma gfold_binds : forall h keys g,
+  (forall k, In k keys -> alookup k g = None \/ alookup k g = Some h) ->
+  forall k, In k keys -> alookup k (fold_left (gstep h) keys g) = Some h.
+Proof.
+  intros h keys. induction keys as [|k0 r IH]; intros g H k Hk; [destruct Hk|].
+  cbn [fold_left].
+  assert (B0 : alookup k0 (gstep h g k0) = Some h).
+  { unfold gstep. destruct (H k0 (or_introl eq_refl)) as [E|E]; rewrite E.
+    - unfold aset. cbn [alookup]. rewrite N.eqb_refl. reflexivity.
+    - exact E. }
+  destruct Hk as [<-|Hk]; [apply gfold_keeps; exact B0|].
+  apply IH; [|exact Hk]. intros x Hx.
+  destruct (N.eq_dec x k0) as [->|Ne]; [right; exact B0|].
+  unfold gstep. destruct (alookup k0 g); [apply H; right; exact Hx|].
+  unfold aset. cbn [alookup]. destruct (x =? k0)%N eqn:E; [apply N.eqb_eq in E; contradiction|].
+  apply H. right. exact Hx.
+Qed.
+
+Lemma bind_ghosts_spec : forall s h keys,
+  ghosts_free s h keys = true ->
+  (forall k, In k keys -> alookup k (st_ghosts (bind_ghosts s h keys)) = Some h) /\
+  vmono s (bind_ghosts s h keys).
+Proof.
+  intros s h keys F. unfold bind_ghosts. cbn [st_ghosts set_ghosts].
+  change (fun g k => match alookup k g with None => aset k h g | Some _ => g end) with (gstep h).
+  split.
+  - apply gfold_binds. intros k Hk. unfold ghosts_free in F. rewrite forallb_forall in F.
+    specialize (F k Hk). destruct (alookup k (st_ghosts s)) as [b|]; [|left; reflexivity].
+    right. apply N.eqb_eq in F. subst b. reflexivity.
+  - repeat split; try reflexivity; cbn; auto. intros k v Hv. apply gfold_keeps. exact Hv.
+Qed.
+
+
+(* the input stage of validate_tx *)
+Definition input_stage (s : lstate) (t : ltx) : option (Z * list Z * bool) :=
+  match l_in t with
+  | LDeposit _ _ amt => Some (amt, [], true)
+  | LMint _ amt => Some (amt, [], true)
+  | LUtxos ins =>
+      match check_utxo_inputs s (l_hash t) (l_asset t) (l_type t) [] ins with
+      | Some (a, tys) => Some (a, tys, l_sig t)
+      | None => None
+      end
+  end.
+
+(* everything an accepting validate_tx checked *)
+Lemma validate_tx_true : forall s t s1,
+  validate_tx s t = (s1, true) ->
+  exists amt utypes,
+    1 <= inputs_count t /\
+    Z.of_nat (length (l_outs t)) <= Consts.KsSliceCountLimit /\
+    refs_ok s (l_refs t) = true /\
+    input_stage s t = Some (amt, utypes, true) /\
+    0 < amt /\
+    outputs_shape_ok (l_outs t) = true /\
+    ghosts_free s (l_hash t) (all_keys (l_outs t)) = true /\
+    s1 = bind_ghosts s (l_hash t) (all_keys (l_outs t)) /\
+    type_specific s1 t (l_type t) utypes = true.
+Proof.
+  intros s t s1 H. unfold validate_tx in H. cbv zeta in H.
+  destruct (l_type t =? TUnknown); [discriminate|].
+  destruct ((inputs_count t <? 1) || (Z.of_nat (length (l_outs t)) <? 1)) eqn:E1; [discriminate|].
+  destruct ((Consts.KsSliceCountLimit <? inputs_count t)
+            || (Consts.KsSliceCountLimit <? Z.of_nat (length (l_outs t)))
+            || (Consts.KsSliceCountLimit <? Z.of_nat (length (l_refs t)))) eqn:E2; [discriminate|].
+  destruct (negb (refs_ok s (l_refs t))) eqn:E3; [discriminate|].
+  fold (input_stage s t) in H.
+  destruct (input_stage s t) as [[[amt utypes] sigs]|] eqn:Einp; [|discriminate].
+  destruct (negb sigs) eqn:E4; [discriminate|].
+  destruct (amt <=? 0) eqn:E5; [discriminate|].
+  destruct (negb (outputs_shape_ok (l_outs t))) eqn:E6; [discriminate|].
+  destruct (negb (sum_outs (l_outs t) =? amt)) eqn:E7; [discriminate|].
+  destruct (negb (ghosts_free s (l_hash t) (all_keys (l_outs t)))) eqn:E8; [discriminate|].
+  injection H as <- Hts.
+  apply negb_false_iff in E3, E4, E6, E8. subst sigs.
+  apply orb_false_iff in E1. destruct E1 as [E1 _]. apply Z.ltb_ge in E1.
+  apply orb_false_iff in E2. destruct E2 as [E2 _]. apply orb_false_iff in E2. destruct E2 as [_ E2]. apply Z.ltb_ge in E2.
+  apply Z.leb_gt in E5.
+  exists amt, utypes. repeat split; try assumption; try lia.
+Qed.
+
+(* ---- output shapes per type ------------------------------------------------- *)
+
+Definition out_fine (o : lout) : Prop :=
+  o_type o = OScript \/ o_type o = OWithdrawalSubmit \/ o_type o = OWithdrawalClaim.
+
+Lemma type_of_outputs_script : forall outs b,
+  type_of_outputs outs b = TScript -> Forall (fun o => o = OScript) outs.
+Proof.
+  induction outs as [|o r IH]; intros b H; [constructor|].
+  cbn [type_of_outputs] in H.
+  repeat match type of H with
+         | (if ?c then _ else _) = _ => destruct c eqn:?; [vm_compute in H; discriminate H|]
+         end.
+  pose proof (IH _ H) as F. constructor; [|exact F].
+  (* is_script stayed true along the way, so o is a script output; but the
+     flag passed down may already be false: then the result cannot be TScript *)
+  destruct (o =? OScript) eqn:Eo; [apply Z.eqb_eq in Eo; exact Eo|].
+  exfalso. rewrite andb_false_r in H. clear -H.
+  revert H. generalize r. induction r0 as [|x r0 IHr]; intros H.
+  - cbn in H. vm_compute in H. discriminate H.
+  - cbn [type_of_outputs] in H.
+    repeat match type of H with
+           | (if ?c then _ else _) = _ => destruct c eqn:?; [vm_compute in H; discriminate H|]
+           end.
+    cbn [andb] in H. apply IHr. exact H.
+Qed.
+
+Lemma forallb_script : forall outs, forallb (fun o => o_type o =? OScript) outs = true ->
+  forall o, In o outs -> o_type o = OScript.
+Proof. intros outs H o Ho. rewrite forallb_forall in H. apply Z.eqb_eq. apply H. exact Ho. Qed.
+
+Lemma oscript_not_claim : OScript <> OWithdrawalClaim.
+Proof. intro E. vm_compute in E. discriminate E. Qed.
+Lemma osubmit_not_claim : OWithdrawalSubmit <> OWithdrawalClaim.
+Proof. intro E. vm_compute in E. discriminate E. Qed.
+
+(* from an accepting type specific validator: every output is a script,
+   submit or claim output; a claim output only occurs in a claim transaction,
+   whose single reference is stored (and, by refs_ok, finalized) *)
+Lemma type_specific_outs : forall s t utypes,
+  type_specific s t (l_type t) utypes = true ->
+  (forall o, In o (l_outs t) -> out_fine o) /\
+  ((exists o, In o (l_outs t) /\ o_type o = OWithdrawalClaim) -> exists r, l_refs t = [r]).
+Proof.
+  intros s t utypes H. unfold type_specific in H.
+  destruct (l_type t =? TScript) eqn:Ts.
+  { apply Z.eqb_eq in Ts. unfold l_type, tx_type in Ts.
+    assert (A : forall o, In o (l_outs t) -> o_type o = OScript).
+    { destruct (type_of_inputs (l_kinds t)) as [ty|] eqn:Ei.
+      - exfalso. pose proof (l_type_cases t) as C. unfold l_type, tx_type in C. rewrite Ei in C.
+        unfold l_kinds in Ei. destruct (l_in t).
+        + cbn in Ei. injection Ei as <-. vm_compute in Ts. discriminate Ts.
+        + cbn in Ei. injection Ei as <-. vm_compute in Ts. discriminate Ts.
+        + assert (type_of_inputs (map (fun _ => IKUtxo) ins) = None) as X by (clear; induction ins; [reflexivity|exact IHins]).
+          rewrite X in Ei. discriminate.
+      - pose proof (type_of_outputs_script _ _ Ts) as F. intros o Ho.
+        rewrite Forall_forall in F. apply (F (o_type o)). apply in_map. exact Ho. }
+    split; [intros o Ho; left; apply A; exact Ho|].
+    intros (o & Ho & E). rewrite (A o Ho) in E. exfalso. exact (oscript_not_claim E). }
+  destruct (l_type t =? TMint) eqn:Tm.
+  { destruct (l_in t); try discriminate.
+    apply andb_true_iff in H. destruct H as [H _]. apply andb_true_iff in H. destruct H as [H _].
+    pose proof (forallb_script _ H) as A.
+    split; [intros o Ho; left; apply A; exact Ho|].
+    intros (o & Ho & E). rewrite (A o Ho) in E. exfalso. exact (oscript_not_claim E). }
+  destruct (l_type t =? TDeposit) eqn:Td.
+  { destruct (l_in t); try discriminate.
+    repeat (apply andb_true_iff in H; destruct H as [H _]).
+    destruct (l_outs t) as [|o [|]]; try discriminate. apply Z.eqb_eq in H.
+    split; [intros x [<-|[]]; left; exact H|].
+    intros (x & [<-|[]] & E). rewrite H in E. exfalso. exact (oscript_not_claim E). }
+  destruct (l_type t =? TWithdrawalSubmit) eqn:Tw.
+  { apply andb_true_iff in H. destruct H as [H Hh]. apply andb_true_iff in H. destruct H as [_ Ht].
+    destruct (l_outs t) as [|o r]; [cbn in Hh; vm_compute in Hh; discriminate Hh|].
+    cbn [head_type] in Hh. apply Z.eqb_eq in Hh. cbn [tail_all_script] in Ht.
+    pose proof (forallb_script _ Ht) as A.
+    split; [intros x [<-|Hx]; [right; left; exact Hh|left; apply A; exact Hx]|].
+    intros (x & [<-|Hx] & E); exfalso.
+    - rewrite Hh in E. exact (osubmit_not_claim E).
+    - rewrite (A x Hx) in E. exact (oscript_not_claim E). }
+  destruct (l_type t =? TWithdrawalClaim) eqn:Tc; [|discriminate].
+  apply andb_true_iff in H. destruct H as [H _]. apply andb_true_iff in H. destruct H as [H Hr].
+  apply andb_true_iff in H. destruct H as [H _]. apply andb_true_iff in H. destruct H as [H Hh].
+  apply andb_true_iff in H. destruct H as [_ Ht].
+  destruct (l_outs t) as [|o r]; [cbn in Hh; vm_compute in Hh; discriminate Hh|].
+  cbn [head_type] in Hh. apply Z.eqb_eq in Hh. cbn [tail_all_script] in Ht.
+  pose proof (forallb_script _ Ht) as A.
+  split; [intros x [<-|Hx]; [right; right; exact Hh|left; apply A; exact Hx]|].
+  intros _. destruct (l_refs t) as [|r0 [|]]; try discriminate. exists r0. reflexivity.
+Qed.
+
+
+(* ledger invariants validation relies on: XIN is a recorded asset (genesis),
+   every unspent output's asset is recorded (outputs only come from deposits,
+   mints and genesis, which record the asset) *)
+Record vinv (s : lstate) : Prop := {
+  vi_xin : alookup Consts.KsAssetXIN (st_infos s) <> None;
+  vi_utxo : forall h i u, ulookup h i s = Some u -> alookup (u_asset u) (st_infos s) <> None
+}.
+
+Lemma check_inputs_first : forall s h asset ty seen ih ii r a tys,
+  check_utxo_inputs s h asset ty seen ((ih, ii) :: r) = Some (a, tys) ->
+  exists u, ulookup ih ii s = Some u /\ u_asset u = asset.
+Proof.
+  intros s h asset ty seen ih ii r a tys H. cbn [check_utxo_inputs] in H.
+  destruct (pmem ih ii seen); [discriminate|].
+  destruct (ulookup ih ii s) as [u|]; [|discriminate].
+  destruct (negb (u_asset u =? asset)%N) eqn:E; [discriminate|].
+  apply negb_false_iff in E. apply N.eqb_eq in E. exists u. split; [reflexivity|exact E].
+Qed.
+
+Lemma outputs_shape_facts : forall outs, outputs_shape_ok outs = true ->
+  forall o, In o outs -> 0 < o_amt o.
+Proof.
+  intros outs H o Ho. unfold outputs_shape_ok in H. apply andb_true_iff in H. destruct H as [H _].
+  rewrite forallb_forall in H. specialize (H o Ho).
+  apply andb_true_iff in H. destruct H as [H _]. apply andb_true_iff in H. destruct H as [H _].
+  apply Z.ltb_lt in H. exact H.
+Qed.
+
+Lemma refs_ok_in : forall s refs r, refs_ok s refs = true -> In r refs ->
+  amem r (st_bodies s) = true /\ amem r (st_finals s) = true.
+Proof.
+  intros s refs r H Hr. unfold refs_ok in H. apply andb_true_iff in H. destruct H as [_ H].
+  rewrite forallb_forall in H. specialize (H r Hr). apply andb_true_iff in H. exact H.
+Qed.
+
+(* an accepted member is ready for finalization in the state validation leaves *)
+Lemma validate_tx_ready : forall s t s1,
+  vinv s -> validate_tx s t = (s1, true) ->
+  ready s1 t /\ vmono s s1 /\ st_utxos s1 = st_utxos s /\ st_dlocks s1 = st_dlocks s /\ st_mints s1 = st_mints s.
+Proof.
+  intros s t s1 V H.
+  destruct (validate_tx_true _ _ _ H) as (amt & utypes & Hin & Hcnt & Hrefs & Hst & Hamt & Hshape & Hfree & -> & Hts).
+  destruct (bind_ghosts_spec s (l_hash t) (all_keys (l_outs t)) Hfree) as [Hb Hm].
+  destruct (type_specific_outs _ _ _ Hts) as [Hfine Hclaim].
+  split; [|split; [exact Hm|repeat split]].
+  constructor.
+  - exact Hb.
+  - intros o Ho. split; [apply (outputs_shape_facts _ Hshape o Ho)|apply Hfine; exact Ho].
+  - exact Hcnt.
+  - intros Hc. destruct (Hclaim Hc) as (r & Er). exists r, []. split; [exact Er|].
+    destruct (refs_ok_in s (l_refs t) r Hrefs) as [A B]; [rewrite Er; left; reflexivity|].
+    destruct Hm as (_ & Bm & Fm & _). split.
+    + destruct (amem_lookup _ _ A) as (v & Hv). apply (amem_of_lookup _ _ v). apply Bm. exact Hv.
+    + rewrite Fm. exact B.
+  - pose proof (l_type_cases t) as TC. unfold input_stage in Hst.
+    change (st_infos (bind_ghosts s (l_hash t) (all_keys (l_outs t)))) with (st_infos s).
+    destruct (l_in t) as [k i d|b m|ins] eqn:Ein.
+    + unfold type_specific in Hts. rewrite TC in Hts. rewrite Ein in Hts.
+      change (TDeposit =? TScript) with false in Hts. change (TDeposit =? TMint) with false in Hts.
+      change (TDeposit =? TDeposit) with true in Hts. cbv iota in Hts.
+      apply andb_true_iff in Hts. destruct Hts as [Hts _]. apply andb_true_iff in Hts. destruct Hts as [Hts _].
+      apply andb_true_iff in Hts. destruct Hts as [Hts Hinfo]. apply andb_true_iff in Hts. destruct Hts as [_ Hd].
+      apply Z.ltb_lt in Hd. split; [exact Hd|].
+      change (st_infos (bind_ghosts s (l_hash t) (all_keys (l_outs t)))) with (st_infos s) in Hinfo.
+      destruct (alookup (l_asset t) (st_infos s)) as [old|]; [|left; reflexivity].
+      apply andb_true_iff in Hinfo. destruct Hinfo as [_ Ho]. apply N.eqb_eq in Ho. subst old. right. reflexivity.
+    + injection Hst as <- _. split; [exact Hamt|].
+      unfold type_specific in Hts. rewrite TC in Hts. rewrite Ein in Hts.
+      change (TMint =? TScript) with false in Hts. change (TMint =? TMint) with true in Hts. cbv iota in Hts.
+      apply andb_true_iff in Hts. destruct Hts as [Hts _]. apply andb_true_iff in Hts. destruct Hts as [_ Hx].
+      apply N.eqb_eq in Hx. rewrite Hx. apply (vi_xin _ V).
+    + unfold inputs_count in Hin. rewrite Ein in Hin.
+      destruct ins as [|[ih ii] r]; [cbn in Hin; lia|].
+      destruct (check_utxo_inputs s (l_hash t) (l_asset t) (l_type t) [] ((ih, ii) :: r)) as [[a tys]|] eqn:Ec; [|discriminate].
+      destruct (check_inputs_first _ _ _ _ _ _ _ _ _ _ Ec) as (u & Hu & Ea).
+      rewrite <- Ea. apply (vi_utxo _ V ih ii u Hu).
+Qed.
+
+
+(* ---- LockInputs / WriteTransaction ------------------------------------------ *)
+
+Lemma ulookup_uset : forall h i u s h' i',
+  ulookup h' i' (uset h i u s) =
+  if (h' =? h)%N then (if (i' =? i)%N then Some u else ulookup h i' s) else ulookup h' i' s.
+Proof.
+  intros h i u s h' i'. unfold ulookup, uset. cbn [st_utxos set_utxos]. unfold aset. cbn [alookup].
+  destruct (h' =? h)%N eqn:Eh; [|reflexivity].
+  cbn [alookup]. destruct (i' =? i)%N; [reflexivity|].
+  destruct (alookup h (st_utxos s)); reflexivity.
+Qed.
+
+(* locking an existing output keeps its asset: the invariant survives *)
+Lemma lock_utxos_spec : forall ins s h s1,
+  lock_utxos s h ins = Some s1 -> vinv s -> vmono s s1 /\ vinv s1.
+Proof.
+  induction ins as [|[ih ii] r IH]; intros s h s1 H V.
+  - injection H as <-. split; [apply vmono_refl|exact V].
+  - cbn [lock_utxos] in H. destruct (ulookup ih ii s) as [u|] eqn:Eu; [|discriminate].
+    destruct (negb (u_lock u =? 0)%N && negb (u_lock u =? h)%N); [discriminate|].
+    set (s' := uset ih ii {| u_asset := u_asset u; u_amt := u_amt u; u_type := u_type u; u_lock := h |} s) in H.
+    assert (V' : vinv s').
+    { constructor; [apply (vi_xin _ V)|].
+      intros h' i' u' Hl. unfold s' in Hl. rewrite ulookup_uset in Hl.
+      change (st_infos s') with (st_infos s).
+      destruct (h' =? ih)%N eqn:Eh.
+      - destruct (i' =? ii)%N eqn:Ei.
+        + injection Hl as <-. cbn. apply (vi_utxo _ V ih ii u Eu).
+        + apply (vi_utxo _ V ih i' u' Hl).
+      - apply (vi_utxo _ V h' i' u' Hl). }
+    destruct (IH s' h s1 H V') as [M V1]. split; [|exact V1].
+    eapply vmono_trans; [|exact M]. unfold s'. repeat split; auto.
+Qed.
+
+Lemma lock_inputs_spec : forall s t s1,
+  lock_inputs s t = Some s1 -> vinv s -> vmono s s1 /\ vinv s1.
+Proof.
+  intros s t s1 H V. unfold lock_inputs in H.
+  destruct (l_type t =? TMint).
+  { destruct (l_in t); try discriminate. destruct (zlookup batch (st_mints s)) as [[a' h']|].
+    - destruct ((h' =? l_hash t)%N && (a' =? amt)); [|discriminate]. injection H as <-. split; [apply vmono_refl|exact V].
+    - injection H as <-. split; [repeat split; auto|].
+      constructor; [apply (vi_xin _ V)|]. intros h i u Hu. apply (vi_utxo _ V h i u Hu). }
+  destruct (l_type t =? TDeposit).
+  { destruct (l_in t); try discriminate. destruct (alookup key (st_dlocks s)) as [b|].
+    - destruct (b =? l_hash t)%N; [|discriminate]. injection H as <-. split; [apply vmono_refl|exact V].
+    - injection H as <-. split; [repeat split; auto|].
+      constructor; [apply (vi_xin _ V)|]. intros h i u Hu. apply (vi_utxo _ V h i u Hu). }
+  destruct (l_in t); try discriminate. apply (lock_utxos_spec _ _ _ _ H V).
+Qed.
+
+(* a member whose body is not stored yet gets stored under its hash *)
+Lemma persist_tx_spec : forall s t s2,
+  persist_tx s t = Some s2 -> alookup (l_hash t) (st_bodies s) = None -> vinv s ->
+  alookup (l_hash t) (st_bodies s2) = Some t /\ vmono s s2 /\ vinv s2 /\
+  (forall h, h <> l_hash t -> alookup h (st_bodies s2) = alookup h (st_bodies s)).
+Proof.
+  intros s t s2 H Hn V. unfold persist_tx in H. unfold amem in H. rewrite Hn in H.
+  match type of H with (if ?c then _ else _) = _ => destruct c; [|discriminate] end.
+  injection H as <-. cbn [st_bodies set_bodies]. split; [apply alookup_aset_eq|]. split; [|split].
+  - split; [intros k v Hv; exact Hv|]. split; [|repeat split].
+    intros h t' Ht. cbn [st_bodies set_bodies]. destruct (N.eq_dec h (l_hash t)) as [->|Ne].
+    + rewrite Hn in Ht. discriminate.
+    + rewrite alookup_aset_neq by exact Ne. exact Ht.
+  - constructor; [apply (vi_xin _ V)|]. intros h i u Hu. apply (vi_utxo _ V h i u Hu).
+  - intros h Ne. apply alookup_aset_neq. exact Ne.
+Qed.
+
+Lemma lock_inputs_bodies : forall s t s1, lock_inputs s t = Some s1 -> st_bodies s1 = st_bodies s.
+Proof.
+  intros s t s1 H. unfold lock_inputs in H.
+  destruct (l_type t =? TMint).
+  { destruct (l_in t); try discriminate. destruct (zlookup batch (st_mints s)) as [[a' h']|].
+    - destruct ((h' =? l_hash t)%N && (a' =? amt)); [|discriminate]. injection H as <-. reflexivity.
+    - injection H as <-. reflexivity. }
+  destruct (l_type t =? TDeposit).
+  { destruct (l_in t); try discriminate. destruct (alookup key (st_dlocks s)) as [b|].
+    - destruct (b =? l_hash t)%N; [|discriminate]. injection H as <-. reflexivity.
+    - injection H as <-. reflexivity. }
+  destruct (l_in t); try discriminate.
+  revert s H. induction ins as [|[ih ii] r IH]; intros s H.
+  - injection H as <-. reflexivity.
+  - cbn [lock_utxos] in H. destruct (ulookup ih ii s) as [u|]; [|discriminate].
+    destruct (negb (u_lock u =? 0)%N && negb (u_lock u =? l_hash t)%N); [discriminate|].
+    rewrite (IH _ H). reflexivity.
+Qed.
+
+
+(* the cache is keyed by the payload hash *)
+Definition pool_keyed (pool : list (N * ltx)) : Prop :=
+  forall h t, alookup h pool = Some t -> l_hash t = h.
+
+(* the members of a snapshot, as found in the cache *)
+Fixpoint batch_txs (pool : list (N * ltx)) (hs : list N) : list ltx :=
+  match hs with
+  | [] => []
+  | h :: r => match alookup h pool with
+              | Some t => t :: batch_txs pool r
+              | None => batch_txs pool r
+              end
+  end.
+
+Lemma validate_loop_missing : forall hs s sn pool last found s' b,
+  validate_loop s sn pool last found true hs = (s', b) -> b = false.
+Proof.
+  induction hs as [|h r IH]; intros s sn pool last found s' b H.
+  - cbn in H. injection H as _ <-. reflexivity.
+  - cbn [validate_loop] in H.
+    destruct (alookup h (st_bodies s)) as [t|].
+    + destruct (match alookup h (st_finals s) with Some sh => negb (sh =? ls_hash sn)%N | None => false end);
+        [injection H as _ <-; reflexivity|].
+      destruct (batch_rules sn (aset h t found) last); [apply (IH _ _ _ _ _ _ _ H)|injection H as _ <-; reflexivity].
+    + destruct (alookup h pool) as [t|]; [|apply (IH _ _ _ _ _ _ _ H)].
+      destruct (validate_tx s t) as [s1 ok]. destruct (negb ok); [injection H as _ <-; reflexivity|].
+      destruct (negb (batch_rules sn (aset h t found) last)); [injection H as _ <-; reflexivity|].
+      destruct (lock_and_persist s1 t) as [s2|]; [apply (IH _ _ _ _ _ _ _ H)|injection H as _ <-; reflexivity].
+Qed.
+
+Lemma vinv_same_utxos : forall s s1, vinv s -> st_utxos s1 = st_utxos s -> st_infos s1 = st_infos s -> vinv s1.
+Proof.
+  intros s s1 V U I. constructor; [rewrite I; apply (vi_xin _ V)|].
+  intros h i u Hu. rewrite I. apply (vi_utxo _ V h i u). unfold ulookup in *. rewrite U in Hu. exact Hu.
+Qed.
+
+Lemma validate_tx_bodies : forall s t s1, validate_tx s t = (s1, true) -> st_bodies s1 = st_bodies s.
+Proof.
+  intros s t s1 H. destruct (validate_tx_true _ _ _ H) as (a & u & _ & _ & _ & _ & _ & _ & _ & -> & _). reflexivity.
+Qed.
+
+(* every member of an accepted, not yet stored, batch is stored under its
+   hash and ready for finalization in the state validation leaves *)
+Lemma validate_loop_ready : forall hs s sn pool last found s',
+  validate_loop s sn pool last found false hs = (s', true) ->
+  vinv s -> pool_keyed pool -> NoDup hs ->
+  (forall h, In h hs -> alookup h (st_bodies s) = None) ->
+  vmono s s' /\
+  map l_hash (batch_txs pool hs) = hs /\
+  (forall t, In t (batch_txs pool hs) -> alookup (l_hash t) (st_bodies s') = Some t /\ ready s' t).
+Proof.
+  induction hs as [|h r IH]; intros s sn pool last found s' H V PK ND Fr.
+  - cbn in H. injection H as <-. split; [apply vmono_refl|]. split; [reflexivity|]. intros t [].
+  - cbn [validate_loop] in H. rewrite (Fr h (or_introl eq_refl)) in H.
+    cbn [batch_txs]. destruct (alookup h pool) as [t|] eqn:Ep.
+    2:{ pose proof (validate_loop_missing _ _ _ _ _ _ _ _ H). discriminate. }
+    pose proof (PK h t Ep) as Eh.
+    destruct (validate_tx s t) as [s1 ok] eqn:Ev. destruct ok; cbn [negb] in H; [|discriminate].
+    destruct (negb (batch_rules sn (aset h t found) last)); [discriminate|].
+    destruct (lock_and_persist s1 t) as [s2|] eqn:El; [|discriminate].
+    unfold lock_and_persist in El. destruct (lock_inputs s1 t) as [s1'|] eqn:Eli; [|discriminate].
+    destruct (validate_tx_ready s t s1 V Ev) as (R1 & M1 & U1 & _ & _).
+    pose proof (validate_tx_bodies _ _ _ Ev) as B1.
+    assert (V1 : vinv s1) by (apply (vinv_same_utxos s s1 V U1); apply M1).
+    destruct (lock_inputs_spec _ _ _ Eli V1) as [M1' V1'].
+    pose proof (lock_inputs_bodies _ _ _ Eli) as B1'.
+    assert (Hn : alookup (l_hash t) (st_bodies s1') = None).
+    { rewrite B1', B1, Eh. apply Fr. left. reflexivity. }
+    destruct (persist_tx_spec _ _ _ El Hn V1') as (Bt & M2 & V2 & Bo).
+    apply NoDup_cons_iff in ND. destruct ND as [Hnotin ND'].
+    destruct (IH s2 sn pool last (aset h t found) s' H V2 PK ND') as (M3 & Emap & Hall).
+    { intros h' Hh'. rewrite Bo; [|intro E; subst h'; rewrite Eh in Hh'; apply Hnotin; exact Hh'].
+      rewrite B1', B1. apply Fr. right. exact Hh'. }
+    assert (Mall : vmono s1 s') by (eapply vmono_trans; [exact M1'|eapply vmono_trans; [exact M2|exact M3]]).
+    split; [eapply vmono_trans; [exact M1|exact Mall]|]. split.
+    + cbn [map]. rewrite Eh, Emap. reflexivity.
+    + intros x [<-|Hx]; [|apply Hall; exact Hx]. split.
+      * destruct M3 as (_ & B3 & _). apply B3. exact Bt.
+      * apply (ready_vmono s1 s' t R1 Mall).
+Qed.
+
+(* ledger invariants of the state the snapshot is validated on *)
+Record ledger_inv (s : lstate) : Prop := {
+  li_v : vinv s;
+  li_totals : forall a, 0 <= total_of s a;
+  li_uniq : forall h, nmem h (st_uniq s) = true -> amem h (st_bodies s) = true
+}.
+
+Lemma total_of_vmono : forall s s' a, vmono s s' -> total_of s' a = total_of s a.
+Proof. intros s s' a (_ & _ & _ & _ & T & _). unfold total_of. rewrite T. reflexivity. Qed.
+
+(* Validation establishes every per-member fact C16_outside consumes; what is
+   left are the two finding regions and the withdrawal bound:
+   - capacity: validation cannot establish it for a batch (it reads only the
+     recorded total, one member at a time): finding F5;
+   - asset info agreement among the batch's deposits of an unrecorded asset:
+     validation compares only with the recorded info: second finding;
+   - withdrawals within the recorded total: not checked by validation at all;
+     it follows from the supply invariant (C17: recorded total = value of the
+     unspent outputs, and the members spend distinct unspent outputs).
+   The members are not stored yet ([fresh]): a member already stored by an
+   earlier refused snapshot is not validated again by validateSnapshotTransaction,
+   its facts come from that earlier validation (not derived here). *)
+Lemma c16_validated_then_finalizes : forall s sn pool last s',
+  ledger_inv s -> pool_keyed pool -> NoDup (ls_txs sn) ->
+  (forall h, In h (ls_txs sn) -> alookup h (st_bodies s) = None) ->
+  validate_batch s sn pool last = (s', true) ->
+  let ts := batch_txs pool (ls_txs sn) in
+  (forall a, total_of s a + sum_adds ts a <= capacity a) ->
+  infos_agree ts ->
+  (forall a, sum_subs ts a <= total_of s a) ->
+  exists s'', write_snapshot s' sn = Ok s''.
+Proof.
+  intros s sn pool last s' LI PK ND Fr Hv ts Hcap Hagree Hsub.
+  unfold validate_batch in Hv.
+  destruct (validate_loop_ready _ _ _ _ _ _ _ Hv (li_v _ LI) PK ND Fr) as (M & Emap & Hall).
+  apply (c16_outside ts s' sn).
+  - symmetry. exact Emap.
+  - intros t Ht. apply (Hall t Ht).
+  - intros t Ht. destruct M as (_ & _ & _ & _ & _ & U). rewrite U.
+    destruct (nmem (l_hash t) (st_uniq s)) eqn:E; [|reflexivity].
+    pose proof (li_uniq _ LI _ E) as A. unfold amem in A.
+    assert (In (l_hash t) (ls_txs sn)) as Hin by (rewrite <- Emap; apply in_map; exact Ht).
+    rewrite (Fr _ Hin) in A. discriminate.
+  - intros t Ht. apply (Hall t Ht).
+  - exact Hagree.
+  - intros a. rewrite (total_of_vmono _ _ a M). apply (li_totals _ LI).
+  - intros a. rewrite (total_of_vmono _ _ a M). apply Hcap.
+  - intros a. rewrite (total_of_vmono _ _ a M). apply Hsub.
+Qed.
